@@ -122,6 +122,35 @@ func init() {
 			e.observe(name+".honest", ts)
 			return extVBytes(fr, []value{name, args[2]})
 		},
+		// Affine(name, x): record the affine form over GF(2) of every bit of x.
+		vpkg + "Affine": func(fr *frame, args []value) value {
+			e := fr.i.eng
+			st := e.st
+			name := argString(fr, args[0], "name")
+			t := fr.i.termOf(args[1])
+			bs := st.bitsOf(t)
+			rows := make([]AffineRow, len(bs))
+			for j, b := range bs {
+				r := AffineRow{Const: b.c, Exact: true}
+				for _, key := range b.s {
+					at := st.all[int(key>>6)]
+					if at.Op != OpVar {
+						r.Exact = false
+					}
+					r.Bits = append(r.Bits, fmt.Sprintf("%s:%d", at.Name, key&63))
+				}
+				rows[j] = r
+			}
+			e.x.mu.Lock()
+			if e.x.Affine == nil {
+				e.x.Affine = map[string][]AffineRow{}
+			}
+			if _, ok := e.x.Affine[name]; !ok {
+				e.x.Affine[name] = rows
+			}
+			e.x.mu.Unlock()
+			return nil
+		},
 		vpkg + "ChunkSize": func(fr *frame, args []value) value {
 			if rebaseOn {
 				return int(rebaseC)
